@@ -177,6 +177,7 @@ def search(c, cfg, missing):
         for w in writes:
             by_method.setdefault(w.split(":")[0], []).append(w.split(":", 1)[1].strip() if ":" in w else "")
         cfg_wit = None
+        opt_wit = None
         for meth, ws in sorted(by_method.items()):
             w, thms, conc = wit, "M3d.C13.facts_queries_readonly, owned_state_noninterference, query_field_scratch_racy", \
                 "see the corr:c13 nestq / nestobj / rendersched / sharedq / sharedobj and race: violations of this run"
@@ -187,6 +188,13 @@ def search(c, cfg, missing):
                     c.notes.append(f"renderer entry points write the renderer: RayVariance (goroutine 0) zeroing the renderer's own Antialias=2 while Render (goroutine 1) runs: {cfg_wit}")
                 w, thms, conc = cfg_wit, "M3d.C13.facts_queries_readonly, renderer_calls_private_config_eq_sequential, renderer_config_field_racy", \
                     "see the corr:c13 rendercfg / sharedrender and race: violations of this run"
+            if any("stores into the elements of its argument" in x for x in ws):
+                # a derivation (Optimize) hands the receiver's own slice to a function that permutes it
+                if opt_wit is None:
+                    opt_wit = _driver(c, "c13 optsearch inplace") + " (grouping a copy of its own: " + _driver(c, "c13 optsearch copy") + ")"
+                    c.notes.append(f"a read-only method hands memory of its receiver to a function that stores into it: Contains (goroutine 0, point in part 1 of the union 3,2,1) while Optimize (goroutine 1) groups the union's own slice: {opt_wit}")
+                w, thms, conc = opt_wit, "M3d.C13.facts_queries_readonly, optimize_private_copy_eq_sequential, optimize_in_place_racy", \
+                    "see the corr:c13 nestderive3 / nestderive2 / sharedderive and race: violations of this run"
             c.violations.append(dict(
                 site=f"facts:c13/query-writes-receiver:{meth}", kind="query-method-writes-shared-structure", found_input=False,
                 detail=f"{meth} writes {', '.join(ws)}",
@@ -218,8 +226,8 @@ PROP = dict(
     thorough_seeds=4,
     post_corr=post_corr,
     search=search,
-    corr_theorems="M3d.C13.dcl_single_creation / readers_eq_sequential (mesh first queries, same index object), index_partition_race_free + concurrentMap_eq_sequential (rasterise, dc/mc populate, KMeans.Assign), mutex_reduction_correct + mutex_reduction_eq_sequential_all_worker_counts (KMeans.Iterate), collect_reduce_correct + collect_eq_sequential_all_worker_counts (dcinterior: per-goroutine buffers appended to the shared result by the reduce function under the launcher's mutex give, for every worker count, the multiset one goroutine collects; collect_aliased_buffers_racy is the model witness for buffers cut out of one backing array), chan_each_index_once (render, mapc), updateAt_locked_is_max (height map), cache_memo_returns_fx (cachefunc, nestcache), owned_state_noninterference + query_local_scratch_eq_sequential (nestq, nestobj, nestsolid, nestsolid2, rendersched, sharedq, sharedobj, sharedsolid, sdfhist, derived3/2: a query that stages its results in state of its own call returns, under every schedule, what it returns alone; query_field_scratch_racy is the model witness for the interrupted-query schedule the harness forces), iterate_private_list_eq_sequential (meshiter3, meshiter2, sharediter: an enumeration that sorts and ranges over the face list allocated by its own call visits every face exactly once in its own order whatever other readers do, also while it is parked inside its callback or its comparison function; iterate_shared_list_racy is the model witness for a list cached in the mesh and sorted in place), renderer_calls_private_config_eq_sequential (rendercfg, sharedrender: Render / RenderVariance / RayVariance of one renderer each sample with the configuration of the private copy their call made; renderer_config_field_racy is the model witness for RayVariance zeroing the renderer's own Antialias field), progress_reports_single_consumer + facts_progress_channel (renderlog: only the goroutine that called Render counts and reports; progress_counters_in_workers_racy is the witness for counters updated by the workers): the model answer of every scenario is the answer of sequential use",
-    rule="scenario instances from one PRNG seed: N in {2,3,4,8,16,32} goroutines issuing first queries (Find/Neighbors/VertexSlice/IterateVertices/Find2) on a fresh 3D/2D mesh so that they race the lazy index build, plus identity of the index object; concurrent queries on shared and concurrently derived MeshToCollider/MeshToSDF/ColliderSolid (3D, 2D); sharedq/sharedobj: N goroutines with their own query lists on one library structure (ProfileCollider, wide JoinedCollider, TransformCollider, nested joins, the ColliderSolid/Inset/Hollow and ColliderToSDF derived from it; Objectify with a nowhere-constant ColorFunc, JoinedObject, FilteredObject, Translate/Rotate/Scale) over plain leaves; nestq/nestobj: the same structures over user-supplied leaves that report entry/exit to a gate -- goroutine A is parked at its k-th callback into user code (for objects also between Cast and the use of the material), goroutine B runs 1-3 complete queries, A continues; every park position k of A's query is tried (all when <= 10, else 10 sampled), answers of A, of B and of A afterwards vs sequential use; rendersched: a real RecursiveRayTracer.Render (MaxDepth 0, 1 sample: deterministic) of an Objectify'd scene in which the worker of a lit pixel P is held at its shadow-ray cast until another worker has cast the primary ray of a pixel Q of another color, image vs the one-goroutine rendering (hook VerifRenderSequential); RasterizeSolid/Rasterize/RasterizeColliderSolid, KMeans.Iterate+Assign (exact integer data), MarchingCubes/Search/Filter/C2F/DualContouring and MarchingCubes over ColliderSolid(ProfileCollider), RayCaster.Render (incl. an Objectify'd object) at GOMAXPROCS 2,3,4,8,16 vs GOMAXPROCS 1; HeightMap.AddSpheresSDF vs sequential replay of the recorded spheres; CacheScalarFunc free-running and (nestcache) with the first evaluation of f(x) parked at entry / at exit while another goroutine asks for the same x; nestsolid/nestsolid2: solids and fields built from function literals (SmoothJoinV2, SmoothJoin, SDFToSolid over TransformSDF/ProfileSDF, Joined/Intersected/SubtractedSolid, Translate/Rotate/Scale/VecScale+CacheSolidBounds, ProfileSolid and RevolveSolid over a 2-D structure; the 2-D twins) over user-supplied gated fields and solids -- A's Contains is parked at its k-th callback into a leaf (every k), B runs 1-3 complete Contains, A continues; query points are drawn near the structure's surface (2-10 bisection steps), where the answer depends most on the query's working state; sharedsolid: the free-running twin (N goroutines, 48 points each, 3-D and 2-D); sdfhist: a mesh field is asked tie points (centre / symmetry planes of cube, box, icosphere, torus, square, polygon) and random ones, then 40 unrelated queries, then the same points again (FaceSDF/PointSDF/NormalSDF must answer alike); dcinterior: DualContouring.MeshInterior with a BufferSize of 4-9 grid layers (3-13 buffer passes) at MaxGos 2,3,5,8 vs MaxGos 1, sorted interior points and mesh (the solid's Contains yields in the concurrent runs so that workers overlap); meshing2: MarchingSquares/Search/Filter/C2F at GOMAXPROCS 2,3,4,8,16 vs 1; kmeanssched: KMeans.Iterate over a user vector type whose Add holds the first merge into the shared sums open until a second merge is in flight (bounded wait: under the lock none can start), integer data, GOMAXPROCS 2-4 vs 1; meshiter3/meshiter2: one small 3-D / 2-D mesh (fresh for every run, so that its lazily built parts are built during it) enumerated by reader A (Iterate, IterateSorted with a total order on the face ids: ascending, descending, rotated, random permutation; IterateVertices, MapCoords) that is parked at its k-th callback into user code -- the visiting callback or, for a third of the sorted enumerations, the comparison function -- while reader B runs 1-3 complete enumerations (the same kinds plus Copy / DeepCopy) of the same mesh, A continues, then A once more; up to 6 park positions per scenario; compared: the exact visit sequence of a sorted enumeration, the multiset of visited faces of Iterate, the copies, vs sequential use of a twin mesh; sharediter: the free-running twin (N goroutines, 6 enumerations each); rendercfg: one RecursiveRayTracer / BidirPathTracer (Antialias 0-1.5, NumSamples 1-5, optional MinSamples/MaxStddev, MaxDepth 1-3) shared by call A (Render / RenderVariance / RayVariance; RayVariance in half of the cases) that is parked inside the Cast of its own empty recording scene at its first / middle / last cast while 1-3 complete calls B with scenes of their own run on the same renderer, A continues, A and a plain Render once more; a call is compared through what is a function of the configuration alone: number of camera rays, number of distinct directions, number of rays exactly through a pixel centre (all without antialiasing, none with it), the all-black image / returned variance; sharedrender: the free-running twin (up to 6 goroutines, 3 calls each); renderlog: the LogFunc reports of a real Render (up to 64 pixels) whose first report is held open 150 ms or until a second report arrives, GOMAXPROCS 2-4, vs the reports of the same Render at GOMAXPROCS 1: fractions k/n in order, constant sample rate, no overlapping calls; mapCoordinates index hand-out. A panic while a scenario builds its structures or computes its sequential answers is reported as a case of its own (c13 <kind> scenario-setup) instead of ending the run. distinct = distinct op lines. The free-running scenarios run a second time under the race detector (GOMAXPROCS >= 8); the gated ones are fully synchronised by construction and are not.",
+    corr_theorems="M3d.C13.dcl_single_creation / readers_eq_sequential (mesh first queries, same index object), index_partition_race_free + concurrentMap_eq_sequential (rasterise, dc/mc populate, KMeans.Assign), mutex_reduction_correct + mutex_reduction_eq_sequential_all_worker_counts (KMeans.Iterate), collect_reduce_correct + collect_eq_sequential_all_worker_counts (dcinterior: per-goroutine buffers appended to the shared result by the reduce function under the launcher's mutex give, for every worker count, the multiset one goroutine collects; collect_aliased_buffers_racy is the model witness for buffers cut out of one backing array), chan_each_index_once (render, mapc), updateAt_locked_is_max (height map), cache_memo_returns_fx (cachefunc, nestcache), owned_state_noninterference + query_local_scratch_eq_sequential (nestq, nestobj, nestsolid, nestsolid2, rendersched, sharedq, sharedobj, sharedsolid, sdfhist, derived3/2: a query that stages its results in state of its own call returns, under every schedule, what it returns alone; query_field_scratch_racy is the model witness for the interrupted-query schedule the harness forces), iterate_private_list_eq_sequential (meshiter3, meshiter2, sharediter: an enumeration that sorts and ranges over the face list allocated by its own call visits every face exactly once in its own order whatever other readers do, also while it is parked inside its callback or its comparison function; iterate_shared_list_racy is the model witness for a list cached in the mesh and sorted in place), renderer_calls_private_config_eq_sequential (rendercfg, sharedrender: Render / RenderVariance / RayVariance of one renderer each sample with the configuration of the private copy their call made; renderer_config_field_racy is the model witness for RayVariance zeroing the renderer's own Antialias field), optimize_private_copy_eq_sequential (nestderive3, nestderive2, sharedderive: a Contains / Min / Max of a JoinedSolid that loads the parts one by one from the shared slice, also while it is parked inside a part, and an Optimize() that groups a copy made by its own call do not disturb each other -- every query returns the fold over the parts in their listed order, every Optimize builds from the grouping of the original list; optimize_in_place_racy is the model witness for GroupBounders on the receiver's own slice), progress_reports_single_consumer + facts_progress_channel (renderlog: only the goroutine that called Render counts and reports; progress_counters_in_workers_racy is the witness for counters updated by the workers): the model answer of every scenario is the answer of sequential use",
+    rule="scenario instances from one PRNG seed: N in {2,3,4,8,16,32} goroutines issuing first queries (Find/Neighbors/VertexSlice/IterateVertices/Find2) on a fresh 3D/2D mesh so that they race the lazy index build, plus identity of the index object; concurrent queries on shared and concurrently derived MeshToCollider/MeshToSDF/ColliderSolid (3D, 2D); sharedq/sharedobj: N goroutines with their own query lists on one library structure (ProfileCollider, wide JoinedCollider, TransformCollider, nested joins, the ColliderSolid/Inset/Hollow and ColliderToSDF derived from it; Objectify with a nowhere-constant ColorFunc, JoinedObject, FilteredObject, Translate/Rotate/Scale) over plain leaves; nestq/nestobj: the same structures over user-supplied leaves that report entry/exit to a gate -- goroutine A is parked at its k-th callback into user code (for objects also between Cast and the use of the material), goroutine B runs 1-3 complete queries, A continues; every park position k of A's query is tried (all when <= 10, else 10 sampled), answers of A, of B and of A afterwards vs sequential use; rendersched: a real RecursiveRayTracer.Render (MaxDepth 0, 1 sample: deterministic) of an Objectify'd scene in which the worker of a lit pixel P is held at its shadow-ray cast until another worker has cast the primary ray of a pixel Q of another color, image vs the one-goroutine rendering (hook VerifRenderSequential); RasterizeSolid/Rasterize/RasterizeColliderSolid, KMeans.Iterate+Assign (exact integer data), MarchingCubes/Search/Filter/C2F/DualContouring and MarchingCubes over ColliderSolid(ProfileCollider), RayCaster.Render (incl. an Objectify'd object) at GOMAXPROCS 2,3,4,8,16 vs GOMAXPROCS 1; HeightMap.AddSpheresSDF vs sequential replay of the recorded spheres; CacheScalarFunc free-running and (nestcache) with the first evaluation of f(x) parked at entry / at exit while another goroutine asks for the same x; nestsolid/nestsolid2: solids and fields built from function literals (SmoothJoinV2, SmoothJoin, SDFToSolid over TransformSDF/ProfileSDF, Joined/Intersected/SubtractedSolid, Translate/Rotate/Scale/VecScale+CacheSolidBounds, ProfileSolid and RevolveSolid over a 2-D structure; the 2-D twins) over user-supplied gated fields and solids -- A's Contains is parked at its k-th callback into a leaf (every k), B runs 1-3 complete Contains, A continues; query points are drawn near the structure's surface (2-10 bisection steps), where the answer depends most on the query's working state; sharedsolid: the free-running twin (N goroutines, 48 points each, 3-D and 2-D); sdfhist: a mesh field is asked tie points (centre / symmetry planes of cube, box, icosphere, torus, square, polygon) and random ones, then 40 unrelated queries, then the same points again (FaceSDF/PointSDF/NormalSDF must answer alike); dcinterior: DualContouring.MeshInterior with a BufferSize of 4-9 grid layers (3-13 buffer passes) at MaxGos 2,3,5,8 vs MaxGos 1, sorted interior points and mesh (the solid's Contains yields in the concurrent runs so that workers overlap); meshing2: MarchingSquares/Search/Filter/C2F at GOMAXPROCS 2,3,4,8,16 vs 1; kmeanssched: KMeans.Iterate over a user vector type whose Add holds the first merge into the shared sums open until a second merge is in flight (bounded wait: under the lock none can start), integer data, GOMAXPROCS 2-4 vs 1; meshiter3/meshiter2: one small 3-D / 2-D mesh (fresh for every run, so that its lazily built parts are built during it) enumerated by reader A (Iterate, IterateSorted with a total order on the face ids: ascending, descending, rotated, random permutation; IterateVertices, MapCoords) that is parked at its k-th callback into user code -- the visiting callback or, for a third of the sorted enumerations, the comparison function -- while reader B runs 1-3 complete enumerations (the same kinds plus Copy / DeepCopy and 'derive' = MeshToCollider + MeshToSDF of the shared mesh, answered by a ray-collision count and two distances) of the same mesh, A continues, then A once more; up to 6 park positions per scenario; compared: the exact visit sequence of a sorted enumeration, the multiset of visited faces of Iterate, the copies, vs sequential use of a twin mesh; sharediter: the free-running twin (N goroutines, 6 enumerations each); rendercfg: one RecursiveRayTracer / BidirPathTracer (Antialias 0-1.5, NumSamples 1-5, optional MinSamples/MaxStddev, MaxDepth 1-3) shared by call A (Render / RenderVariance / RayVariance; RayVariance in half of the cases) that is parked inside the Cast of its own empty recording scene at its first / middle / last cast while 1-3 complete calls B with scenes of their own run on the same renderer, A continues, A and a plain Render once more; a call is compared through what is a function of the configuration alone: number of camera rays, number of distinct directions, number of rays exactly through a pixel centre (all without antialiasing, none with it), the all-black image / returned variance; sharedrender: the free-running twin (up to 6 goroutines, 3 calls each); renderlog: the LogFunc reports of a real Render (up to 64 pixels) whose first report is held open 150 ms or until a second report arrives, GOMAXPROCS 2-4, vs the reports of the same Render at GOMAXPROCS 1: fractions k/n in order, constant sample rate, no overlapping calls; nestderive3/nestderive2: a JoinedSolid of 3-9 user-supplied gated parts (spheres / rects / FuncSolids; laid out along an axis from high to low, along an axis shuffled, or anywhere in a cube, so that in more than 90 % of the scenarios the listed order is not the grouped one -- stat nestderive3-union-not-in-grouped-order / nestderive2-...) whose Contains(pa) (pa inside one part, the later parts preferred, or anywhere in the bounds) is parked at its k-th callback into a part (every k) while goroutine B runs 1-3 complete derivations / queries of the same union (the first one in turn: Optimize() in every second scenario, NewSolidMux + AllContains, IntersectedSolid{j, j.Optimize()}, Contains/Min/Max, Optimize twice, CacheSolidBounds; each answered at 4 points -- one of them a neighbour of pa in half of the cases -- + bounds), A continues, A once more; every run gets a FRESH slice with the same parts in the same order (a derivation that reorders the slice it is given must do so during the interrupted run), compared with sequential use of a twin slice; sharedderive: the free-running twin (n goroutines on one 3-D and one 2-D union over plain parts: even ones query the union, odd ones derive Optimize() / NewSolidMux and query that); mapCoordinates index hand-out. A panic while a scenario builds its structures or computes its sequential answers is reported as a case of its own (c13 <kind> scenario-setup) instead of ending the run. distinct = distinct op lines. The free-running scenarios run a second time under the race detector (GOMAXPROCS >= 8); the gated ones are fully synchronised by construction and are not.",
     trusted=[
         "modelled, not verified: the Go memory model (happens-before from program order, mutex, sequentially consistent atomics, channels) and the scheduler (any interleaving of atomic steps); a racy read returns the latest value in the interleaving (no weak-memory behaviours); index build and queries are single plain accesses of one cell; a query is a straight-line sequence of plain reads/writes (no branches) in owned_state_noninterference",
         "the tie is the SHAPE of the code (go/ast, no type information): the statement sequence of getVertexToFace, mapCoordinates, updateAt, CacheScalarFunc and the syntactic class of every write/mutating call on captured state in every worker closure (plus plain writes of package-level variables in callees, resolved by name, and writes/appends through a worker-local slice expression of captured state; a plain copy `buf := captured.f` is not tracked because without types it may be an array copy); 'own index' means the index expression mentions the worker's own parameter (injectivity of e.g. indices[i] -> (x,y) is not checked)",
@@ -229,6 +237,7 @@ PROP = dict(
         "face lists are abstracted to one cell (iterLocalProg: the face set, the sorted list of a call and the callback's record are single values; sort / nth / append are parameters of the theorem), so the element-wise damage of a shared list sorted in place is shown for the list as a whole; that TriangleSlice / SegmentSlice return a fresh slice is not extracted from the source (no types) -- it is what meshiter3/meshiter2 observe",
         "the sampling renderers are randomised: rendercfg / sharedrender compare what is a function of the renderer's configuration with probability 1 (counts of camera rays, of distinct directions, of rays through pixel centres over an empty scene), not pixel values; renderCallProg models the configuration as the one field Antialias",
         "renderlog holds the first LogFunc call open for a bounded time (150 ms); on a machine where no second worker finishes a pixel in that time a change that lets workers report themselves is only caught by the facts and the race detector",
+        "the part list of a union is abstracted to one cell (unionProg: the listed parts, the grouped list of an Optimize call and a query's answer are single values; grouping / nth / the fold of a part's answer are parameters of the theorem) and Contains' early return is modelled as folding over all parts (same answer, more loads); that append([]Solid{}, j...) yields a fresh array is the facts check 'Optimize hands no memory of its receiver to a function that stores into its argument' (paramWriters: a per-package fixed point over plain functions, resolved by bare name, same package only) plus what nestderive3/nestderive2 observe, not a proof about append",
         "user-supplied leaves (Solid.Contains, SDF, Collider, Object.Cast, materials, ColorFunc) are assumed safe for concurrent calls",
         "the race detector only sees the schedules that occur in the run; it backs the theorem, it does not decide the property",
     ],
@@ -236,6 +245,6 @@ PROP = dict(
         "callers do not mutate a mesh/collider/solid while others read it (the property is about read-only use)",
         "user-supplied solids, SDFs, filters and materials are themselves safe for concurrent calls",
     ],
-    level_text="Theorems (Lean 4) over an interleaving semantics with happens-before, for EVERY schedule and every number of threads, proved by inductive invariants: double-checked creation of the vertex index builds exactly once, every reader gets the same fully built object and the sequential answer, no data race (dcl_single_creation, readers_eq_sequential); disjoint index hand-out never conflicts and equals the sequential map, instantiated with ConcurrentMap's strided hand-out (index_partition_race_free, concurrentMap_eq_sequential); mutex-guarded reduction equals the sequential fold for commutative-associative merges (mutex_reduction_correct); per-goroutine buffers handed to a reduce function under the launcher's mutex reach the shared result exactly once when the goroutines' backing arrays are distinct, and with the library's strided hand-out the result is, for every worker count, the fold one goroutine computes (collect_reduce_correct, collect_eq_sequential_all_worker_counts, mutex_reduction_eq_sequential_all_worker_counts; strided_flatten_perm: the hand-outs are a permutation of 0..n-1), while buffers cut out of one backing array have a decided race + lost/duplicated-element witness (collect_aliased_buffers_racy); a pre-filled channel delivers every index exactly once (chan_each_index_once); updateAt under a mutex ends at the maximum with consistent 'changed' flags, the unsynchronised version has a decided two-thread race + lost-update witness (updateAt_locked_is_max, updateAt_racy); Load/compute/Store memoisation returns f(x) to every caller, claim-first has a decided witness (cache_memo_returns_fx, cache_claim_first_racy); immutable query structures: goroutines that write only state owned by their own call and read only that and the never-written structure are race-free and each computes exactly what it computes alone, for arbitrary straight-line query programs and any ownership map (owned_state_noninterference), instantiated with the staged query (query_local_scratch_eq_sequential), while staging in a field of the shared structure has a decided race + wrong-answer witness under the interrupted-query schedule (query_field_scratch_racy); enumerations of one mesh that sort and range over a list of their own call give every reader every face exactly once in its own order (iterate_private_list_eq_sequential; a cached list sorted in place: iterate_shared_list_racy); calls on one renderer sample with the configuration of their own copy (renderer_calls_private_config_eq_sequential; RayVariance zeroing the renderer's field: renderer_config_field_racy); progress is counted and reported by the caller of Render alone (progress_reports_single_consumer; progress_counters_in_workers_racy). Tie: M3d/Gen/ConcFacts.lean is regenerated from /repo with go/ast on every run and facts_* theorems require the extracted statement sequences to equal the modelled ones, every worker closure's effects on captured state to be in a proved-safe class, and none of the ~380 query methods (Collider/Solid/SDF/Object/Material/mesh queries incl. Iterate/IterateSorted, and the renderers' Render/RenderVariance/RayVariance, of model2d, model3d, render3d, toolbox3d) to assign memory of its receiver (facts_queries_readonly, facts_queries_cover), none of the 34 query closures (function literals behind FuncSolid / CheckedFuncSolid / FuncSDF / FuncPointSDF, returned color functions) to assign a variable it did not declare (facts_query_closures_readonly, facts_query_closures_cover), and no worker to write through a slice alias of captured state (facts_workers_safe, facts_collect_sites); the real scenarios are run concurrently vs sequentially (outputs must be identical) -- free-running, under schedules forced through gated user callbacks (every park position of the interrupted query; a real rendering with two workers forced to overlap), and once more under the race detector.",
+    level_text="Theorems (Lean 4) over an interleaving semantics with happens-before, for EVERY schedule and every number of threads, proved by inductive invariants: double-checked creation of the vertex index builds exactly once, every reader gets the same fully built object and the sequential answer, no data race (dcl_single_creation, readers_eq_sequential); disjoint index hand-out never conflicts and equals the sequential map, instantiated with ConcurrentMap's strided hand-out (index_partition_race_free, concurrentMap_eq_sequential); mutex-guarded reduction equals the sequential fold for commutative-associative merges (mutex_reduction_correct); per-goroutine buffers handed to a reduce function under the launcher's mutex reach the shared result exactly once when the goroutines' backing arrays are distinct, and with the library's strided hand-out the result is, for every worker count, the fold one goroutine computes (collect_reduce_correct, collect_eq_sequential_all_worker_counts, mutex_reduction_eq_sequential_all_worker_counts; strided_flatten_perm: the hand-outs are a permutation of 0..n-1), while buffers cut out of one backing array have a decided race + lost/duplicated-element witness (collect_aliased_buffers_racy); a pre-filled channel delivers every index exactly once (chan_each_index_once); updateAt under a mutex ends at the maximum with consistent 'changed' flags, the unsynchronised version has a decided two-thread race + lost-update witness (updateAt_locked_is_max, updateAt_racy); Load/compute/Store memoisation returns f(x) to every caller, claim-first has a decided witness (cache_memo_returns_fx, cache_claim_first_racy); immutable query structures: goroutines that write only state owned by their own call and read only that and the never-written structure are race-free and each computes exactly what it computes alone, for arbitrary straight-line query programs and any ownership map (owned_state_noninterference), instantiated with the staged query (query_local_scratch_eq_sequential), while staging in a field of the shared structure has a decided race + wrong-answer witness under the interrupted-query schedule (query_field_scratch_racy); enumerations of one mesh that sort and range over a list of their own call give every reader every face exactly once in its own order (iterate_private_list_eq_sequential; a cached list sorted in place: iterate_shared_list_racy); calls on one renderer sample with the configuration of their own copy (renderer_calls_private_config_eq_sequential; RayVariance zeroing the renderer's field: renderer_config_field_racy); queries of a JoinedSolid and Optimize() calls that group a copy of their own do not disturb each other (optimize_private_copy_eq_sequential; grouping the receiver's own slice: optimize_in_place_racy); progress is counted and reported by the caller of Render alone (progress_reports_single_consumer; progress_counters_in_workers_racy). Tie: M3d/Gen/ConcFacts.lean is regenerated from /repo with go/ast on every run and facts_* theorems require the extracted statement sequences to equal the modelled ones, every worker closure's effects on captured state to be in a proved-safe class, and none of the ~390 query methods (Collider/Solid/SDF/Object/Material/mesh queries incl. Iterate/IterateSorted, the renderers' Render/RenderVariance/RayVariance, and the read-only derivations Optimize/Copy/DeepCopy/MapCoords, of model2d, model3d, render3d, toolbox3d) to assign memory of its receiver or to hand it to a function of the package that stores into the elements of that argument (GroupBounders, GroupTriangles, ...) (facts_queries_readonly, facts_queries_cover), none of the 34 query closures (function literals behind FuncSolid / CheckedFuncSolid / FuncSDF / FuncPointSDF, returned color functions) to assign a variable it did not declare (facts_query_closures_readonly, facts_query_closures_cover), and no worker to write through a slice alias of captured state (facts_workers_safe, facts_collect_sites); the real scenarios are run concurrently vs sequentially (outputs must be identical) -- free-running, under schedules forced through gated user callbacks (every park position of the interrupted query; a real rendering with two workers forced to overlap), and once more under the race detector.",
     level_note="The Go memory model and scheduler are modelled, not verified; the tie covers the shape of the code, not the runtime; the race detector sees only schedules that occur. Weak-memory effects, compiler reordering, goroutine starvation and panics inside workers are outside the model.",
 )
